@@ -177,10 +177,31 @@ def oracle_c11(v):
         for s in v.setup.get(t, []):
             requirers.setdefault(s, set()).add(t)
 
-    def setup_justified(s, r):
-        """r was being selected to run when s was first looked at: get_status(r) happened before,
-        and r had no final report yet"""
-        p0 = v.first(1, s)
+    firstpos = {}
+    for pidx, e in enumerate(v.ev):
+        if len(e) > 1 and e[0] in (1, 2, 3, 4, 5, 6, 20) and e[1] not in firstpos:
+            firstpos[e[1]] = pidx
+
+    def p_sub(x, just):
+        """position at which x shows up; if x itself never got an event: the first position of anything
+        below it (any edge kind) that is not justified otherwise"""
+        if x in firstpos:
+            return firstpos[x]
+        seen, todo, best = set(), [x], None
+        while todo:
+            y = todo.pop()
+            if y in seen:
+                continue
+            seen.add(y)
+            if y != x and y not in just and y in firstpos and (best is None or firstpos[y] < best):
+                best = firstpos[y]
+            todo += v.non_setup_deps(y) + v.setup.get(y, [])
+        return best
+
+    def setup_justified(s, r, just=frozenset()):
+        """r was being selected to run when s (or something below s) was first looked at:
+        get_status(r) happened before, and r had no final report yet"""
+        p0 = p_sub(s, just)
         pr = v.first(1, r)
         fr = [p for p, e in enumerate(v.ev) if e[0] in FINAL and e[1] == r]
         return p0 is not None and pr is not None and pr < p0 and not (fr and fr[0] < p0)
@@ -193,7 +214,7 @@ def oracle_c11(v):
                 if d not in just:
                     just.add(d); changed = True
         for s in range(v.n):
-            if s not in just and any(r in just and setup_justified(s, r) for r in requirers.get(s, ())):
+            if s not in just and any(r in just and setup_justified(s, r, just) for r in requirers.get(s, ())):
                 just.add(s); changed = True
     for s in range(v.n):
         if s not in just and v.first(1, s) is not None:
